@@ -221,6 +221,7 @@ Definition prog_ok (x : option (list Qc)) (y : list Qc) (e : option exn) (steps 
                 return None
             if c["strategy"] == "function":
                 c["coef"] = [0.5, 1.0]
+                c["fn_kind"] = "poly"
             return c
         if name == "integral_match":
             return {"op": name, "rt": rng.choice(["trapezoid", "rectangle"]), "rr": rng.choice(["rectangle", "rectangle", "trapezoid"]),
@@ -229,7 +230,8 @@ Definition prog_ok (x : option (list Qc)) (y : list Qc) (e : option exn) (steps 
             method = rng.choice(["linear", "linear", "constant", "cubic", "spline"])
             if method == "spline" and n < 4:
                 method = "linear"
-            if rng.random() < 0.5:
+            # an explicit grid is compared with == against the current end points: only when they are exact dyadics (DESIGN 3.6)
+            if rng.random() < 0.5 or not exact:
                 nn = rng.randint(2, min(MAXLEN, 2 * n + 3))
                 return {"op": name, "n": nn, "method": method}
             M = rng.randint(2, min(MAXLEN, n + 6))
